@@ -288,7 +288,7 @@ def xclass_term(cv, cidx):
     aa = "None" if not anyattr else f"(Some {fns_term(fns_of(anyattr[0]['namespaces']))})"
     tx = "None" if not text else f"(Some {ftype_term(text[0])})"
     xsi = clist([f"({cstr(q)}, {cnat(cidx[c])})" for q, c in sorted(cv["xsi"].items()) if c in cidx], str, "(name * nat)")
-    bases = clist([cnat(cidx[b]) for b in cv["bases"] if b in cidx], str, "nat")
+    bases = clist([cnat(i) for b, i in sorted(cidx.items()) if b.partition("@")[0] in cv["bases"]], str, "nat")
     return (f"(mk_xclass {meta} {clist(tterms, str, '(list (name * ftarget))')} {afields} {atypes} {aa} {tx} {xsi} "
             f"{cbool(cv['nillable'])} {bases})")
 
@@ -467,8 +467,8 @@ def run(ck: Check):
     ck.level = "translation_validation"
     obligations, discharged, axioms = standard_proof_step(ck, extra_targets=["Model/XsdCorr.vo"])
     r = ck.rng
-    NPROG = int(os.environ.get("C02_NPROG") or ck.n(40, 1500))
-    NDOC = int(os.environ.get("C02_NDOC") or ck.n(20, 200))
+    NPROG = int(os.environ.get("C02_NPROG") or ck.n(40, 400))
+    NDOC = int(os.environ.get("C02_NDOC") or ck.n(20, 60))
 
     # ---------------- programs
     programs, regen, genbugs = [], {}, []
@@ -583,11 +583,23 @@ def run(ck: Check):
                     tout, valid = "None", False
                 docs.append(f"(P{k}_{o}, mk_doc DIN{k}_{j} {tout} {cbool(valid)})")
             defs.append(f"Definition DOCS{k}_{o} : list (program * doc) := {clist(docs, str, '(program * doc)')}.")
+        # the variants: metadata only (their outputs are compared with the base run's as text first)
+        for rr in p["runs"]:
+            if rr["oset"]["base"] is None:
+                continue
+            o = rr["oi"]
+            pairs, cidx = propose_pairs(schema, rr["res"], root_decl["type"])
+            cls = clist([xclass_term(cv, cidx) for cv in rr["res"]["classes"]], str, "xclass")
+            pr = clist([f"({cnat(t)}, {cnat(c)})" for t, c in pairs], str, "(nat * nat)")
+            defs.append(f"Definition P{k}_{o} : program := mk_program S{k} {cls} {pr} "
+                        f"({cstr(p['root'])}, {cnat(root_decl['type'])}, {cnat(cidx[rr['res']['root_class']])}) "
+                        f"{cbool(root_decl['nillable'])} {cbool(rr['oset']['compound'])}.")
         return "\n".join(defs)
 
     SH = 4
     shards = [good_prog[i:i + SH] for i in range(0, len(good_prog), SH)]
     shard_times = []
+    shard_mx = {}
     DOC_PREDS = ["doc_in_valid", "doc_out_valid_agrees", "doc_abstract_sound", "doc_infoset_ok", "doc_infoset_unordered_ok",
                  "doc_revalid_ok", "doc_infoset_ok_noall", "doc_infoset_ok_nodup"]
     FEATS = ["pr_empty_simple", "pr_nil", "pr_xsi_type", "pr_mixed_ws", "pr_mixed_binary"]
@@ -598,6 +610,15 @@ def run(ck: Check):
         pnames = [f"P{k}_{o}" for k in range(len(sh)) for o in (0, 1)]
         alld = " ++ ".join(f"DOCS{k}_{o}" for k in range(len(sh)) for o in (0, 1)) or "[]"
         defs += f"\nDefinition ALLDOCS : list (program * doc) := {alld}.\n"
+        mx = []
+        for k, p in enumerate(sh):
+            for (rr, base, j, a, b) in matrix_cases:
+                if rr["p"] is p:
+                    mx.append((rr, base, j, a, b))
+                    defs += (f"Definition MX{len(mx) - 1} : program * (xdoc * xdoc) := (P{k}_{base['oi']}, "
+                             f"({xdoc_term(parse_doc(clean_out(a)))}, {xdoc_term(parse_doc(clean_out(b)))})).\n")
+        shard_mx[si] = mx
+        mxl = clist([f"MX{i}" for i in range(len(mx))], str, "(program * (xdoc * xdoc))")
         progs = clist(pnames, str, "program")
         evals = [f"map (fun p => map (pair_flags p) (p_pairs p)) {progs}",
                  f"map (fun p => map (pair_rejected p) (p_pairs p)) {progs}",
@@ -605,6 +626,10 @@ def run(ck: Check):
                  f"map root_paired {progs}"]
         evals += [f"bad_idx {pr} 0 ALLDOCS" for pr in DOC_PREDS]
         evals += ["map doc_brejecting ALLDOCS", "map doc_diff ALLDOCS", "map doc_quirks ALLDOCS", "map doc_active ALLDOCS"]
+        evals += [f"bad_idx matrix_equal 0 {mxl}"]
+        evals += ["[" + "; ".join(f"program_inequiv P{k}_{p['runs'][o]['oset']['base']} P{k}_{o} ++ "
+                                  f"program_inequiv P{k}_{o} P{k}_{p['runs'][o]['oset']['base']}"
+                                  for k, p in enumerate(sh) for o in (2, 3)) + "]"]
         evals += ["bad_idx (fun pd => negb (doc_feature %s pd)) 0 ALLDOCS"
                   % ("(pr_mixed_binary (p_schema (fst pd)))" if f == "pr_mixed_binary" else f) for f in FEATS]
         t0 = time.time()
@@ -624,7 +649,23 @@ def run(ck: Check):
         diffs = results[si][5 + len(DOC_PREDS)]
         quirks = results[si][6 + len(DOC_PREDS)]
         active = results[si][7 + len(DOC_PREDS)]
-        feats = [set(x) for x in results[si][8 + len(DOC_PREDS):]]
+        bad_mx = results[si][8 + len(DOC_PREDS)]
+        inequiv = results[si][9 + len(DOC_PREDS)]
+        feats = [set(x) for x in results[si][10 + len(DOC_PREDS):]]
+        for vi, (p_, o) in enumerate([(p_, o) for p_ in sh for o in (2, 3)]):
+            stats["meta_equiv_compared"] = stats.get("meta_equiv_compared", 0) + 1
+            if inequiv[vi]:
+                rr = p_["runs"][o]
+                names = [p_["schema"]["types"][t]["name"] or f"anonymous type #{t}" for t in inequiv[vi]]
+                types = p_["schema"]["types"]
+                mixed_children = {d["type"] for T in types if T["content"][0] == "mixed" for d in T["decls"]}
+                cls = "options-change-metadata"
+                if rr["oset"]["options"].get("unnest_classes") and all(
+                        t in mixed_children and types[t]["content"][0] == "simple" for t in inequiv[vi]):
+                    cls = "unnest-mixed-choice-wrapper-reset-to-str"
+                ck.failure(cls,
+                           f"binding metadata differs (beyond collection factories and class nesting) under {rr['oset']['options']} "
+                           f"for {names[:4]}", replay_of(rr, types=names))
         bad_valid, bad_outvalid, bad_abs, bad_info, bad_unord, bad_reval, bad_noall, bad_nodup = bad
         base_runs = [p["runs"][o] for p in sh for o in (0, 1)]
         docmap = [(rr, j) for rr in base_runs for j in range(len(rr["res"]["docs"]))]
@@ -705,6 +746,17 @@ def run(ck: Check):
                 ck.failure("output-not-schema-valid", "serialized output is not schema-valid although order is claimed for all its elements",
                            replay_of(rr, doc=doc, out=dr["ok"]))
 
+    # ---------------- option matrix: outputs that differ as canonical typed infosets (verdict from the shards)
+    for si in range(len(shards)):
+        for i in results[si][8 + len(DOC_PREDS)]:
+            rr, base, j, a, b = shard_mx[si][i]
+            # when the base output already deviates from the input by known deviations, the option dependence of WHICH
+            # deviation shows is part of those findings (e.g. which of two confusable compound choices is written)
+            qs = base["res"]["docs"][j].get("quirks") or []
+            for cls in [QUIRK_CLASS[q] for q in qs if q in QUIRK_CLASS] or ["options-change-output"]:
+                ck.failure(cls, f"the output of a document differs under {rr['oset']['options']}",
+                           replay_of(rr, doc=rr["p"]["docs"][j], base=a, variant=b))
+
     # ---------------- option matrix: acceptance differs.  When the refusing side fails in a document that has instances of
     # a known deviation, the option dependence is part of that finding; otherwise it is a violation of its own.
     for rr, base, j, a, b in matrix_accept:
@@ -715,22 +767,6 @@ def run(ck: Check):
                 f"{'accepted' if 'ok' in b else 'refused'} under {rr['oset']['options']}")
         for cls in clss or ["options-change-acceptance"]:
             ck.failure(cls, what, replay_of(rr, doc=p["docs"][j], base=a, variant=b))
-
-    # ---------------- option matrix cases whose outputs differ as text: compare as infosets in Coq
-    if matrix_cases:
-        terms = []
-        for rr, base, j, a, b in matrix_cases:
-            terms.append(f"({xdoc_term(parse_doc(clean_out(a)))}, {xdoc_term(parse_doc(clean_out(b)))})")
-        badm = common.coq_bad_indices("c02_matrix", HEADER.split("Fixpoint bad_idx")[0], "", "xdoc * xdoc", "outputs_equal",
-                                      terms, shard=100)
-        for i in badm:
-            rr, base, j, a, b = matrix_cases[i]
-            # when the base output already deviates from the input by known deviations, the option dependence of WHICH
-            # deviation shows is part of those findings (e.g. which of two confusable compound choices is written)
-            qs = base["res"]["docs"][j].get("quirks") or []
-            for cls in [QUIRK_CLASS[q] for q in qs if q in QUIRK_CLASS] or ["options-change-output"]:
-                ck.failure(cls, f"the output of a document differs under {rr['oset']['options']}",
-                           replay_of(rr, doc=rr["p"]["docs"][j], base=a, variant=b))
 
     # ---------------- witnesses of failed validator runs, replayed through the real parser
     if witness_jobs:
